@@ -14,6 +14,9 @@ CLAIMED = {
     'C13': dict(
         text="Every wrapper is decided against an arbitrary (recording) inner writer by symbolic execution of its real async handle_event MIR polled to completion, for a fully symbolic stream item; that is what makes nesting compositional.",
         note="Kernels: FailOnSkipped::handle_event (+ map closures, Event::map, Cucumber::scenario, with_retries) and its default predicate (tag vectors of length <= 1 quick / 2 thorough per level, symbolic contents); Repeat::skipped/failed filter closures; Repeat::handle_event with 0..2 buffered items; Tee::handle_event/write (futures::join modelled), Or::handle_event; Stats getters (Tee = max, Or = sum, forwarding). Inner futures complete after 0..1 polls (thorough: up to 2). Custom predicates/filters are opaque symbolic Booleans."),
+    'C05': dict(
+        text="The retry arithmetic and the queue kernels that implement 'retry exactly on failure within budget, delayed' are decided for all 64-bit values by symbolic execution of their MIR; queue shapes are enumerated, everything inside an entry (retry options, delay, start instant, clock reading) is symbolic. Counterexamples are confirmed by an in-crate differential replay of the real private functions.",
+        note="Kernels: Retries::initial/next_try, RetryOptions::next_try/with_deadline/without_deadline, From<RetryOptionsWithDeadline>, left_until_retry (Instant::elapsed = arbitrary value), Features::insert_scenarios (<= 2 inserted + <= 2 queued entries, both hash-map iteration orders), Features::get (queues of <= 2 Serial x <= 2 Concurrent entries, thorough 3; limit None | 0..3). Duration/Instant abstracted to 64-bit nanoseconds; futures Mutex locks at once. NOT covered here: the sequencing inside the multi-poll coroutines run_scenario/execute (attempts do not overlap, fresh World per attempt, other scenarios keep running during the delay) - stated as outside the claim."),
 }
 NA_REASON = {
     'C14': 'reporters: the facts leave through serde_json / junit-report / console styling / io::Write and the oracle is a parse-back of text; nothing of the property is left once those library calls are opaque (DESIGN.md section 3)',
